@@ -385,7 +385,12 @@ Section Exec.
           | 82%N => push (VBool true) (S ip)
           | 24%N => push (const_value (nth (operand 1) (code_consts c) (KInt 0))) (ip + 2)
           | 21%N => push (nth (operand 1) (nth cur_arr (arrays s) []) VGoNil) (ip + 2)
-          | 23%N => push (nth (operand 1) (globals s) VGoNil) (ip + 2)
+          | 23%N =>
+              (* a declared global that no code has assigned yet is an eval error (only reachable incrementally) *)
+              match nth (operand 1) (globals s) VGoNil with
+              | VGoNil => (RErr XEval s, defers)
+              | gv => push gv (ip + 2)
+              end
           | 22%N =>
               match nth_error free (operand 1) with
               | Some (a, i) => push (nth i (nth a (arrays s) []) VGoNil) (ip + 2)
